@@ -1,3 +1,4 @@
 import Pog.Model.Basic
 import Pog.Model.Names
 import Pog.Model.Fresh
+import Pog.Props.C20
